@@ -617,10 +617,20 @@ def explore(rep, br, tier, seed):
                      "of the two observed images and checks both against the models")
     if err is not None:
         raise err
+    # check.py starts the search only when no violation at all was recorded; the known finding is always
+    # recorded here, so the search for a NEW failing input is started from here
+    if (br is not None and not br.ok) or rep.disagreements:
+        if not any(v["signature"] != KNOWN_END for v in rep.violations):
+            C.log("search: obligations or correspondence broken; looking for a concrete failing input (model-free)")
+            search(rep, br, tier, seed)
+
+
+KNOWN_END = "end-inside-repeat"
 
 
 def search_without_model(rep, tier, seed):
-    search(rep, None, tier, seed)
+    if not any(v["signature"] != KNOWN_END for v in rep.violations):
+        search(rep, None, tier, seed)
 
 
 def search(rep, br, tier, seed):
@@ -630,7 +640,7 @@ def search(rep, br, tier, seed):
         repeat_family(rep, rng, 600, 0, with_model=False, label="search-repeat")
         structure_family(rep, rng, 300, with_model=False)
         rich_family(rep, rng, 80)
-        if any(v["signature"] != "end-inside-repeat" for v in rep.violations):
+        if any(v["signature"] != KNOWN_END for v in rep.violations):
             return
 
 
